@@ -32,22 +32,22 @@ type WriteRec struct {
 
 // ioEnv is the simulated I/O of one run.
 type ioEnv struct {
-	faults   []Fault
-	firedN   [8]int
-	writes   []WriteRec
-	nOut     int // Write calls on "out"
-	nFiles   int // Write calls on created files
-	nCreate  int
-	out      bytes.Buffer
-	stderrN  int
-	files    map[string]*bytes.Buffer
-	order    []string
-	dirs     []string
-	inputs   map[string][]byte
-	chunk    int
+	faults                 []Fault
+	firedN                 [8]int
+	writes                 []WriteRec
+	nOut                   int // Write calls on "out"
+	nFiles                 int // Write calls on created files
+	nCreate                int
+	out                    bytes.Buffer
+	stderrN                int
+	files                  map[string]*bytes.Buffer
+	order                  []string
+	dirs                   []string
+	inputs                 map[string][]byte
+	chunk                  int
 	stickyOut, stickyFiles bool
-	nClosed  int
-	splitLine, splitCRLF int
+	nClosed                int
+	splitLine, splitCRLF   int
 }
 
 func newIOEnv(faults []Fault, chunk int) *ioEnv {
@@ -255,6 +255,7 @@ func (r *simReader) Seek(off int64, whence int) (int64, error) {
 
 //go:norace
 func (r *simReader) Write(p []byte) (int, error) { return 0, os.ErrInvalid }
+
 //go:norace
 func (r *simReader) Close() error {
 	r.env.nClosed++
@@ -268,9 +269,11 @@ type outFile struct {
 }
 
 //go:norace
-func (f *outFile) Read(p []byte) (int, error)  { return 0, os.ErrInvalid }
+func (f *outFile) Read(p []byte) (int, error) { return 0, os.ErrInvalid }
+
 //go:norace
 func (f *outFile) Write(p []byte) (int, error) { return f.w.Write(p) }
+
 //go:norace
 func (f *outFile) Close() error {
 	f.w.env.nClosed++
@@ -280,16 +283,19 @@ func (f *outFile) Close() error {
 type stdoutFile struct{ w simWriter }
 
 //go:norace
-func (f *stdoutFile) Read(p []byte) (int, error)  { return 0, os.ErrInvalid }
+func (f *stdoutFile) Read(p []byte) (int, error) { return 0, os.ErrInvalid }
+
 //go:norace
 func (f *stdoutFile) Write(p []byte) (int, error) { return f.w.Write(p) }
+
 //go:norace
-func (f *stdoutFile) Close() error                { return nil }
+func (f *stdoutFile) Close() error { return nil }
 
 type stderrFile struct{ env *ioEnv }
 
 //go:norace
 func (f stderrFile) Read(p []byte) (int, error) { return 0, os.ErrInvalid }
+
 //go:norace
 func (f stderrFile) Write(p []byte) (int, error) {
 	e := f.env
@@ -297,6 +303,7 @@ func (f stderrFile) Write(p []byte) (int, error) {
 	e.stderrN += n
 	return len(p), nil
 }
+
 //go:norace
 func (f stderrFile) Close() error { return nil }
 
@@ -344,7 +351,11 @@ func (e *ioEnv) MkdirAll(path string, perm os.FileMode) error {
 func (e *ioEnv) Stdin() simrt.FileImpl {
 	return e.reader("stdin", e.inputs["stdin"])
 }
+
 //go:norace
-func (e *ioEnv) Stdout() simrt.FileImpl { return &stdoutFile{w: simWriter{env: e, dest: "out", buf: &e.out}} }
+func (e *ioEnv) Stdout() simrt.FileImpl {
+	return &stdoutFile{w: simWriter{env: e, dest: "out", buf: &e.out}}
+}
+
 //go:norace
 func (e *ioEnv) Stderr() simrt.FileImpl { return stderrFile{e} }
